@@ -96,7 +96,10 @@ def name_clause(m, clause, tag, sfx=None):
 
 
 SCHEMES = [['$A1', '$A2', '$A3', '$A4', '$A5', '$Q1'], ['$Gr\u00f6\u00dfe', '$Zo\u00e9', '$A\u00f1o', '$\u00c9t\u00e9', '$\u00dcber', '$\u00d8re'], ['$X_1', '$X_2', '$X_3', '$X_4', '$X_5', '$X_6'],
-           ['$a', '$b', '$c', '$d', '$e', '$q'], ['$Value2', '$Value22', '$V', '$VV', '$VVV', '$Value'], ['$X', '$Y', '$X', '$Y', '$Z', '$X']]
+           ['$a', '$b', '$c', '$d', '$e', '$q'], ['$Value2', '$Value22', '$V', '$VV', '$VVV', '$Value'], ['$X', '$Y', '$X', '$Y', '$Z', '$X'],
+           # names that differ only in case, in a trailing / leading character, or that are very long
+           ['$X', '$x', '$Xy', '$xY', '$XY', '$xy'], ['$Ab', '$aB', '$AB', '$ab', '$A', '$a'],
+           ['$' + 'LongVariableName' * 4, '$' + 'LongVariableName' * 4 + 'x', '$' + 'longVariableName' * 4, '$L', '$l', '$Lo']]
 
 
 def rename_text(clause, scheme):
